@@ -76,6 +76,49 @@ struct CaseId {
   std::string str() const { return "family=" + family + " gi=" + std::to_string(gi) + " ov=" + std::to_string(ov) + " tm=" + ints_dot(tm) + " cm=" + std::to_string(cm); }
 };
 
+// ---- recovery reference helpers (C06-C08)
+static std::string strip_idx(const std::string &s) {   // T(code@idx) -> T(code)
+  std::string o;
+  for (size_t i = 0; i < s.size(); i++) { if (s[i] == '@') { while (i < s.size() && s[i] != ')') i++; } o += s[i]; }
+  return o;
+}
+// first token (n = end of input) such that no sentence of G'' starts with the tokens up to and including it; -1 for a sentence
+static int first_error_index(const Gram &g, const std::vector<int> &w) {
+  int n = (int) w.size();
+  for (int k = 0; k < n; k++) { std::vector<int> u(w.begin(), w.begin() + k + 1); RefVP v(g, u); if (!v.viable()) return k; }
+  RefVP v(g, w);
+  return v.sentence() ? -1 : n;
+}
+struct Repair { std::vector<int> r, idx; int deleted; int nseg; int a, b; };
+static void repairs_rec(const std::vector<int> &w, int ERR, int from, int segs_left, std::vector<int> &cur, std::vector<int> &curidx, int deleted, int nseg, int a0, int b0, int want, std::vector<Repair> &out) {
+  int n = (int) w.size();
+  // finish: copy the rest
+  {
+    Repair rp; rp.r = cur; rp.idx = curidx; for (int i = from; i < n; i++) { rp.r.push_back(w[i]); rp.idx.push_back(i); }
+    rp.deleted = deleted; rp.nseg = nseg; rp.a = a0; rp.b = b0;
+    if (nseg >= 1 && deleted == want) out.push_back(rp);
+  }
+  if (!segs_left) return;
+  for (int a = from; a <= n; a++) {
+    for (int b = a; b <= n; b++) {
+      if (deleted + (b - a) > want) break;
+      size_t sz = cur.size();
+      for (int i = from; i < a; i++) { cur.push_back(w[i]); curidx.push_back(i); }
+      cur.push_back(ERR); curidx.push_back(a);
+      repairs_rec(w, ERR, b, segs_left - 1, cur, curidx, deleted + (b - a), nseg + 1, nseg == 0 ? a : a0, nseg == 0 ? b : b0, want, out);
+      cur.resize(sz); curidx.resize(sz);
+    }
+  }
+}
+// translations (strict strings with original token indices) of a repaired string in G''
+static std::set<std::string> repaired_translations(const Gram &g, const Repair &rp, bool implicit_rule) {
+  std::set<std::string> out;
+  Ref R(g, rp.r, &rp.idx);
+  if (R.sentence()) { const SpanVal &v = R.root(); for (auto &t : v.trs) out.insert(t.own); }
+  if (implicit_rule && rp.r.size() == 1 && rp.r[0] == g.ERR()) out.insert("N");
+  return out;
+}
+
 struct GramEngine {
   GramCfg cfg;
   Family *fam = nullptr;
@@ -177,6 +220,7 @@ struct GramEngine {
     if (sent && rootv->capped) { rep.add("reference_capped"); }
     std::string addr0 = cid.str() + " in=" + ints_comma(w);
 
+    int ferr = -2;   // first error index by the reference, computed on demand
     std::map<std::string, std::pair<std::string, std::string>> c09groups;  // key(one,cost,rec,match,am) -> (first obs, its flags)
 
     for (const Flags &f : cfg.flags) {
@@ -297,6 +341,109 @@ struct GramEngine {
           if (rootv->trs.size() >= 2 && o.amb == 0) V("C05", "flag-missed", "input has " + std::to_string(rootv->trs.size()) + " different translations but the ambiguity flag is 0");
           if (rootv->cnt >= 2) rep.add("c05_cases_ambiguous");
           if (o.amb) rep.add("c05_flag_set");
+        }
+        // ---- C06 / C07 / C08 (syntax errors and recovery)
+        if (cfg.props & (P06 | P07 | P08)) {
+          int n = (int) w.size();
+          if (ferr == -2) ferr = first_error_index(g, w);
+          bool refsent = ferr == -1;
+          auto attr_ok = [&](int idx, long a) { return idx == n ? a == -1 : a == idx; };
+          if ((cfg.props & P06) && strict_ok && !refsent && o.rc == 0) {
+            rep.add("c06_cases");
+            if (o.errs.empty()) V("C06", "no-callback", "non-sentence without any syntax_error call");
+            else {
+              const SynErr &e0 = o.errs[0];
+              if (e0.err != ferr) V("C06", "first-error-position", "first syntax_error reports token " + std::to_string(e0.err) + ", the first token that no sentence can contain at that place is " + std::to_string(ferr));
+              else if (!attr_ok(e0.err, e0.err_a)) V("C06", "error-attribute", "error token " + std::to_string(e0.err) + " reported with the attribute of " + (e0.err_a == -1 ? std::string("NULL") : e0.err_a == -2 ? std::string("a foreign pointer") : "token " + std::to_string(e0.err_a)));
+              if (ferr == n) rep.add("c06_error_at_end"); else if (ferr == 0) rep.add("c06_error_at_0");
+              if (!f.rec) {
+                if (o.errs.size() != 1) V("C06", "callback-count", std::to_string(o.errs.size()) + " syntax_error calls with recovery off");
+                if (e0.ign != -1 || e0.rec != -1 || e0.ign_a != -1 || e0.rec_a != -1) V("C06", "recovery-arguments-off", "recovery off but the recovery arguments are (" + std::to_string(e0.ign) + "," + std::to_string(e0.ign_a) + "," + std::to_string(e0.rec) + "," + std::to_string(e0.rec_a) + ")");
+              } else {
+                int prev = -1;
+                for (auto &e : o.errs) {
+                  if (!(0 <= e.ign && e.ign <= e.rec && e.rec <= n)) { V("C06", "range", "call reports first ignored " + std::to_string(e.ign) + ", first recovered " + std::to_string(e.rec) + " with " + std::to_string(n) + " tokens"); break; }
+                  if (!(0 <= e.err && e.err <= n)) { V("C06", "range", "error token " + std::to_string(e.err) + " outside the input"); break; }
+                  if (!attr_ok(e.err, e.err_a) || !attr_ok(e.ign, e.ign_a) || !attr_ok(e.rec, e.rec_a)) { V("C06", "attributes", "attributes do not belong to the reported indices: err " + std::to_string(e.err) + "@" + std::to_string(e.err_a) + " ign " + std::to_string(e.ign) + "@" + std::to_string(e.ign_a) + " rec " + std::to_string(e.rec) + "@" + std::to_string(e.rec_a)); break; }
+                  if (e.err <= prev) { V("C06", "not-increasing", "error tokens do not strictly increase: " + std::to_string(prev) + " then " + std::to_string(e.err)); break; }
+                  prev = e.err;
+                }
+                if (o.errs.size() >= 2) rep.add("c06_multi_error_cases");
+              }
+            }
+          }
+          if ((cfg.props & P07) && f.rec && o.rc == 0) {
+            rep.add("c07_cases");
+            if (o.root == NULL) V("C07", "null-root", "recovery on: NULL root");
+            else if (refsent != o.errs.empty()) V("C07", "callback-iff-nonsentence", std::string(refsent ? "sentence" : "non-sentence") + " with " + std::to_string(o.errs.size()) + " syntax_error calls");
+            else {
+              for (auto &x : d.shape) V("C07", "shape", x);
+              if (!refsent && d.shape.empty() && !d.capped) {
+                rep.add("c07_recovered_cases");
+                long Rtot = 0; bool neg = false;
+                for (auto &e : o.errs) { if (e.rec < e.ign) neg = true; Rtot += e.rec - e.ign; }
+                if (neg || Rtot < 0 || Rtot > n) V("C07", "ignored-total", "reported ignored total " + std::to_string(Rtot) + " is impossible for " + std::to_string(n) + " tokens");
+                else {
+                  bool implicit_rule = true; for (auto &r : g.rules) if (r.lhs == g.start() && r.rhs.size() == 1 && r.rhs[0] == g.ERR()) implicit_rule = false;
+                  std::vector<Repair> reps; std::vector<int> cur, curidx;
+                  std::set<std::string> strict_all, loose_all;
+                  std::vector<std::set<std::string>> per;
+                  // up to 3 segments first; more (up to n+1) only if some tree is not explained yet
+                  for (int maxseg = 3; maxseg <= std::max(3, n + 1); maxseg++) {
+                    reps.clear(); cur.clear(); curidx.clear(); strict_all.clear(); loose_all.clear();
+                    repairs_rec(w, g.ERR(), 0, maxseg, cur, curidx, 0, 0, 0, 0, (int) Rtot, reps);
+                    per.assign(reps.size(), std::set<std::string>());
+                    for (size_t k = 0; k < reps.size(); k++) { per[k] = repaired_translations(g, reps[k], implicit_rule); for (auto &t : per[k]) { strict_all.insert(t); loose_all.insert(strip_idx(t)); } }
+                    bool expl = true; for (auto &t : d.trees) if (!loose_all.count(strip_idx(t))) expl = false;
+                    if (expl) break;
+                  }
+                  bool all_ok = true, strict_ok2 = true;
+                  for (auto &t : d.trees) { if (!loose_all.count(strip_idx(t))) { all_ok = false; V("C07", "tree-not-a-repair", "tree " + t + " is not the translation of any input repaired by replacing segments of " + std::to_string(Rtot) + " tokens in total by `error' (" + std::to_string(reps.size()) + " repairs tried)"); break; } if (!strict_all.count(t)) strict_ok2 = false; }
+                  if (all_ok && !strict_ok2) rep.add("c07_attribute_only_mismatch");
+                  if (all_ok && o.errs.size() == 1) {
+                    // unique single-segment repair of that size explaining every tree
+                    int cnt = 0, ua = -1, ub = -1;
+                    for (size_t k = 0; k < reps.size(); k++) if (reps[k].nseg == 1) {
+                      bool ex = true; std::set<std::string> loose; for (auto &t : per[k]) loose.insert(strip_idx(t));
+                      for (auto &t : d.trees) if (!loose.count(strip_idx(t))) ex = false;
+                      if (ex) { cnt++; ua = reps[k].a; ub = reps[k].b; }
+                    }
+                    bool any_multi = false;
+                    for (size_t k = 0; k < reps.size() && !any_multi; k++) if (reps[k].nseg > 1) { bool ex = true; std::set<std::string> loose; for (auto &t : per[k]) loose.insert(strip_idx(t)); for (auto &t : d.trees) if (!loose.count(strip_idx(t))) ex = false; if (ex) any_multi = true; }
+                    if (cnt == 1 && !any_multi) {
+                      rep.add("c07_unique_segment_cases");
+                      if (o.errs[0].ign != ua || o.errs[0].rec != ub) V("C07", "segment-mismatch", "the only repair of " + std::to_string(Rtot) + " tokens explaining the tree replaces [" + std::to_string(ua) + "," + std::to_string(ub) + ") but the callback reports [" + std::to_string(o.errs[0].ign) + "," + std::to_string(o.errs[0].rec) + ")");
+                    }
+                  }
+                }
+              }
+            }
+          }
+          if ((cfg.props & P08) && f.rec && o.rc == 0 && !refsent && !o.errs.empty() && g.uses_error()) {
+            rep.add("c08_cases");
+            const SynErr &e0 = o.errs[0];
+            // the statement measures from the error token yaep reported (its position is C06's business)
+            int k = (e0.err >= 0 && e0.err <= n) ? e0.err : ferr, m = f.match, best = INT_MAX;
+            for (int p = 0; p <= k; p++) {
+              std::vector<int> pre(w.begin(), w.begin() + p); pre.push_back(g.ERR());
+              RefVP vp(g, pre);
+              if (!vp.viable()) continue;
+              for (int q = k; q <= n; q++) {
+                if ((k - p) + (q - k) >= best) break;
+                std::vector<int> x = pre; bool need_sentence;
+                if (q + m <= n) { x.insert(x.end(), w.begin() + q, w.begin() + q + m); need_sentence = false; }
+                else { x.insert(x.end(), w.begin() + q, w.end()); need_sentence = true; }
+                RefVP v2(g, x);
+                if (need_sentence ? v2.sentence() : v2.viable()) { best = (k - p) + (q - k); break; }
+              }
+            }
+            if (best == INT_MAX) rep.add("c08_no_simple_recovery");
+            else {
+              long R1 = e0.rec - e0.ign;
+              if (R1 > best) V("C08", "not-minimal", "first recovery ignores " + std::to_string(R1) + " tokens, a simple recovery (back to an earlier `error' position, skip forward, match " + std::to_string(m) + ") costs " + std::to_string(best));
+              if (best > 0) rep.add("c08_nonzero_bound");
+            }
+          }
         }
         // ---- C13 (parse-level)
         if ((cfg.props & P13) && o.rc == 0) check_c13(g, y, o, d, have_den, am, w, f, V, rep);
